@@ -963,9 +963,15 @@ static int32_t reconstruct_omitted_chunk(struct jls_core_s * self, uint16_t sign
                 value = 0xff;
             }
             memset(d, value, sz_bytes);
+        } else if (signal_def->data_type == JLS_DATATYPE_I8) {
+            uint8_t value = (uint8_t) ((int8_t) roundf(mu32));
+            memset(d, value, sz_bytes);
+        } else if (signal_def->data_type == JLS_DATATYPE_I4) {
+            uint8_t value = ((uint8_t) ((int8_t) roundf(mu32))) & 0x0F;
+            value |= (value << 4);
+            memset(d, value, sz_bytes);
         } else {
             memset(d, 0, sz_bytes);  // for now, set to zero
-            break;
         }
         d += sz_bytes;
         ++s_index;
